@@ -982,13 +982,30 @@ impl Log {
 			let count = min(max_count, queue.len());
 			queue.drain(0..count).collect()
 		};
+		let mut done = 0;
+		let mut result = Ok(());
 		for (id, ref mut file) in cleaned.iter_mut() {
 			log::debug!(target: "parity-db", "Cleaned: {}", id);
 			#[cfg(parity_db_verif)]
 			crate::verif::event("truncate", *id as u64, 0);
-			try_io!(file.rewind());
-			try_io!(file.set_len(0));
-			file.sync_all().map_err(Error::Io)?;
+			result = (|| {
+				try_io!(file.rewind());
+				try_io!(file.set_len(0));
+				file.sync_all().map_err(Error::Io)
+			})();
+			if result.is_err() {
+				break
+			}
+			done += 1;
+		}
+		if result.is_err() {
+			// The logs that could not be truncated still wait for cleanup, ahead of everything that was
+			// queued meanwhile: a younger log must never be truncated while an older one is kept, or
+			// recovery would replay the older records and stop at the gap.
+			let mut queue = self.cleanup_queue.write();
+			for entry in cleaned.drain(done..).rev() {
+				queue.push_front(entry);
+			}
 		}
 		// Move cleaned logs back to the pool
 		let mut pool = self.log_pool.write();
@@ -1002,6 +1019,7 @@ impl Log {
 				self.drop_log(id)?;
 			}
 		}
+		result?;
 		Ok(!self.cleanup_queue.read().is_empty())
 	}
 
